@@ -1,4 +1,5 @@
 import CssVerif.Model.CodecInner
+import CssVerif.Model.CodecStream
 /-!
 # K6 — `IncrementalDecoder.decode` / `decode` with the exception of the inner decoder (`errors="strict"`)
 
@@ -93,5 +94,37 @@ def encodeOneShotE (I : InnerEnc) (given : Option Name) (input : List Nat) : Opt
     let E := detUFinal input
     if encErrAt E (if isSig E then fixFinal input utf8Name else input) then none
     else some (encodeOneShot I given input)
+
+/-! ## the stream reader with the exception of the inner stream reader (`codec.py:536`, `:548`)
+
+`streamreader.decode(input, errors)` raises on ill-formed data — also on the calls whose result the CSS reader then
+throws away because the `@charset` rule is still open. No `final`: data that merely ends inside a character never raises. -/
+
+def rstepE (I : Inner) (force : Bool) : RSt → List Nat → Option (RSt × List Nat)
+  | .waiting enc bb, input =>
+    match choose enc force (bb ++ input) with
+    | none => some (rstep I force (.waiting enc bb) input)
+    | some E => if errAt E (bb ++ input) false then none else some (rstep I force (.waiting enc bb) input)
+  | .reading E c, input =>
+    if errAt E (c ++ input) false then none else some (rstep I force (.reading E c) input)
+
+def rrunChunksE (I : Inner) (force : Bool) : RSt → List (List Nat) → Option (RSt × List Nat)
+  | s, [] => some (s, [])
+  | s, c :: cs =>
+    match rstepE I force s c with
+    | none => none
+    | some r =>
+      match rrunChunksE I force r.1 cs with
+      | none => none
+      | some r' => some (r'.1, r.2 ++ r'.2)
+
+def readAllE (I : Inner) (given : Option Name) (force : Bool) (cs : List (List Nat)) : Option (List Nat) :=
+  (rrunChunksE I force (.waiting given []) cs).map (·.2)
+
+/-- the inner decoder of the encoding the reader settles on raises on the data `d` (non-final) -/
+def rerr (given : Option Name) (force : Bool) (d : List Nat) : Bool :=
+  match choose given force d with
+  | none => false
+  | some E => errAt E d false
 
 end CssVerif.Codec
